@@ -297,6 +297,16 @@ impl<'tcx> Dumper<'tcx> {
                     items.push(("tag_off", l.fields.offset(tag_field.as_usize()).bytes().to_string()));
                     items.push(("tag_size", tag.size(&tcx).bytes().to_string()));
                 }
+                // niche-encoded tag: variant = niche_lo + (tag - niche_start) when that lies in niche_lo..=niche_hi,
+                // the untagged variant otherwise
+                if let rustc_abi::TagEncoding::Niche { untagged_variant, niche_variants, niche_start } = tag_encoding {
+                    items.push(("niche_off", l.fields.offset(tag_field.as_usize()).bytes().to_string()));
+                    items.push(("niche_size", tag.size(&tcx).bytes().to_string()));
+                    items.push(("niche_start", jstr(&niche_start.to_string())));
+                    items.push(("niche_lo", niche_variants.start().as_usize().to_string()));
+                    items.push(("niche_hi", niche_variants.end().as_usize().to_string()));
+                    items.push(("niche_untagged", untagged_variant.as_usize().to_string()));
+                }
             }
         }
         let mut variants = Vec::new();
